@@ -37,6 +37,9 @@ enum Obs {
     /// subscriber is about to wait for a line (a subscriber left waiting here when
     /// everybody else has finished is an idle client, not a blocked hub operation)
     RecvWait(usize),
+    /// found in the channel of a subscriber at the end of the execution although it had emptied
+    /// the channel right after its unsubscribe returned: delivered after the unsubscribe completed
+    LateLine(usize, String),
 }
 
 type Log = Rc<RefCell<Vec<Obs>>>;
@@ -52,7 +55,7 @@ struct Built {
     tasks: Vec<Task>,
     log: Log,
     /// receivers parked here by subscribers that never read ("frozen")
-    _parked: Rc<RefCell<Vec<mpsc::Receiver<String>>>>,
+    _parked: Rc<RefCell<Vec<(usize, bool, mpsc::Receiver<String>)>>>,
     hub: SubscriptionHub,
 }
 
@@ -66,7 +69,7 @@ fn subscriber(
     then_unsub: bool,
     then_close: bool,
     frozen: bool,
-    parked: Rc<RefCell<Vec<mpsc::Receiver<String>>>>,
+    parked: Rc<RefCell<Vec<(usize, bool, mpsc::Receiver<String>)>>>,
 ) -> Task {
     Box::pin(async move {
         let (tx, mut rx) = mpsc::channel::<String>(cap);
@@ -74,7 +77,7 @@ fn subscriber(
         log.borrow_mut().push(Obs::Subscribed(me, topic.to_string(), id.clone()));
         if frozen {
             // arbitrarily slow client: keeps its connection open, never reads
-            parked.borrow_mut().push(rx);
+            parked.borrow_mut().push((me, false, rx));
             return;
         }
         for _ in 0..recvs {
@@ -92,12 +95,12 @@ fn subscriber(
             while let Ok(line) = rx.try_recv() {
                 log.borrow_mut().push(Obs::Recv(me, line));
             }
-            parked.borrow_mut().push(rx);
+            parked.borrow_mut().push((me, true, rx));
         } else if then_close {
             drop(rx);
             log.borrow_mut().push(Obs::Closed(me));
         } else {
-            parked.borrow_mut().push(rx);
+            parked.borrow_mut().push((me, false, rx));
         }
     })
 }
@@ -119,7 +122,7 @@ fn publisher(hub: SubscriptionHub, log: Log, topic: &'static str, values: Vec<i6
 fn build(c: Config) -> Built {
     let hub = SubscriptionHub::new();
     let log: Log = Default::default();
-    let parked: Rc<RefCell<Vec<mpsc::Receiver<String>>>> = Default::default();
+    let parked: Rc<RefCell<Vec<(usize, bool, mpsc::Receiver<String>)>>> = Default::default();
     let h = hub.clone();
     let tasks: Vec<Task> = match c.h {
         // H1: subscriber {subscribe, recv x2, unsubscribe} || publisher {1,2,3}
@@ -161,6 +164,13 @@ fn build(c: Config) -> Built {
             publisher(h.clone(), log.clone(), "stats", vec![1, 2, 3], None),
             publisher(h.clone(), log.clone(), "stats", vec![4, 5], None),
         ],
+        // H8: two reading subscribers || two single-shot publishers (agreement on the publication order)
+        8 => vec![
+            subscriber(h.clone(), log.clone(), 0, "stats", c.cap.max(2), 2, false, false, false, parked.clone()),
+            subscriber(h.clone(), log.clone(), 1, "stats", c.cap.max(2), 2, true, false, false, parked.clone()),
+            publisher(h.clone(), log.clone(), "stats", vec![1], None),
+            publisher(h.clone(), log.clone(), "stats", vec![2], None),
+        ],
         _ => vec![
             subscriber(h.clone(), log.clone(), 0, "stats", c.cap, 0, false, false, true, parked.clone()),
             publisher(h.clone(), log.clone(), "stats", vec![1, 2, 3, 4], None),
@@ -178,8 +188,23 @@ fn publisher_lists(c: Config) -> Vec<(&'static str, Vec<i64>)> {
         4 => vec![("stats", vec![1, 2]), ("priority.window", vec![7])],
         5 => vec![("stats", vec![1, 2]), ("stats", vec![3])],
         6 => vec![("stats", vec![1, 2, 3]), ("stats", vec![4, 5])],
+        8 => vec![("stats", vec![1]), ("stats", vec![2])],
         _ => vec![("stats", vec![1, 2, 3, 4])],
     }
+}
+
+/// The history of a finished execution, completed by what is still sitting in the channels of
+/// subscribers that had unsubscribed (and emptied their channel right after unsubscribe returned).
+fn final_log(log: &Log, parked: &Rc<RefCell<Vec<(usize, bool, mpsc::Receiver<String>)>>>) -> Vec<Obs> {
+    let mut l = log.borrow().clone();
+    for (me, unsubscribed, rx) in parked.borrow_mut().iter_mut() {
+        if *unsubscribed {
+            while let Ok(line) = rx.try_recv() {
+                l.push(Obs::LateLine(*me, line));
+            }
+        }
+    }
+    l
 }
 fn c_pub_count(c: Config) -> usize {
     publisher_lists(c).len()
@@ -225,6 +250,15 @@ fn judge(c: Config, log: &[Obs], x: &Execution, hub_len_end: usize) -> Result<St
             if ids.insert(id.clone(), (*me, topic.clone())).is_some() {
                 return fail("subscription-id-not-unique", format!("id {id} was handed out twice"));
             }
+        }
+    }
+    // (4') nothing is put into a subscriber's channel after its unsubscribe has completed
+    for o in log {
+        if let Obs::LateLine(me, line) = o {
+            return fail(
+                "delivered-after-unsubscribe-completed",
+                format!("subscriber {me} emptied its channel right after unsubscribe returned, yet at the end of the execution the channel holds {line}"),
+            );
         }
     }
     // (2) + (3) + (4)
@@ -279,6 +313,7 @@ fn judge(c: Config, log: &[Obs], x: &Execution, hub_len_end: usize) -> Result<St
             4 => vec![vec![1, 2], vec![7]],
             5 => vec![vec![1, 2], vec![3]],
             6 => vec![vec![1, 2, 3], vec![4, 5]],
+            8 => vec![vec![1], vec![2]],
             _ => vec![vec![1, 2, 3, 4]],
         };
         publisher_order.extend(lists);
@@ -361,9 +396,12 @@ fn configs(tier: Tier) -> Vec<(Config, usize)> {
     let mut v = Vec::new();
     let b = if tier.is_quick() { 2 } else { 3 };
     for cap in [1usize, 2] {
-        for h in 1..=7u8 {
+        for h in 1..=8u8 {
+            if h == 8 && cap == 1 {
+                continue; // H8 uses capacity >= 2
+            }
             let bound = match h {
-                2 | 5 | 6 => b.min(if tier.is_quick() { 2 } else { 3 }),
+                2 | 5 | 6 | 8 => b.min(if tier.is_quick() { 2 } else { 3 }),
                 _ => b,
             };
             v.push((Config { h, cap }, bound));
@@ -390,9 +428,10 @@ fn run_one(cfg: Config, bound: usize, cap_exec: u64) -> RunOut {
     let mut exec = |prefix: &[usize]| -> Result<Execution, (String, String)> {
         let b = build(cfg);
         let log = b.log.clone();
+        let parked = b._parked.clone();
         let hub = b.hub.clone();
         let x = run_futures(b.tasks, prefix, 5000, &mut |_t, _tag| {}).map_err(|e| ("MACHINERY".to_string(), e))?;
-        let l = log.borrow().clone();
+        let l = final_log(&log, &parked);
         let _ = hub;
         let d = judge(cfg, &l, &x, 0)?;
         if sample.is_empty() && x.points.len() > 6 {
@@ -454,8 +493,9 @@ pub fn run(tier: Tier) -> Report {
             let again = |p: &[usize]| -> Option<String> {
                 let b = build(o.cfg);
                 let log = b.log.clone();
+                let parked = b._parked.clone();
                 let x = run_futures(b.tasks, p, 5000, &mut |_, _| {}).ok()?;
-                let l = log.borrow().clone();
+                let l = final_log(&log, &parked);
                 judge(o.cfg, &l, &x, 0).err().map(|e| e.0)
             };
             let (r1, r2) = (again(&prefix), again(&prefix));
@@ -478,9 +518,10 @@ pub fn run(tier: Tier) -> Report {
         "H5": "subscriber+unsubscribe || subscriber+close || publisher {1,2} then hub.len() || publisher {3}",
         "H6": "two subscribers frozen for ever after subscribing || publishers {1,2,3} || {4,5}: every schedule must run to completion",
         "H7": "frozen subscriber || publisher {1,2,3,4} || subscriber that unsubscribes",
+        "H8": "subscriber (recv x2) || subscriber (recv x2, unsubscribe) || publisher {1} || publisher {2}",
     }));
     rep.set("switch_points", json!("every genuine Pending of tokio's Mutex / mpsc, plus yield points before every lock acquisition, right after every acquisition (lock held), after the id counter fetch_add, between entries of the publish loop (lock held), and after the publish loop released the lock"));
-    rep.set("oracle", json!("(1) every schedule runs to completion (no deadlock), also with subscribers that never read / never run again; (2) every received line parses, is jsonrpc 2.0, has method <topic>.update of the subscription's topic and a subscription_id that subscribe returned to that very subscriber; ids pairwise distinct; (3) per subscription each value at most once, one publisher's values in program order, two subscriptions of a topic agree on the relative order of common values; a received value's publish had been invoked; (4) no value whose publish was invoked after unsubscribe(X) returned is delivered on X; (5) hub.len() after a publish (invoked after a receiver was dropped) has returned no longer counts that subscription"));
+    rep.set("oracle", json!("(1) every schedule runs to completion (no deadlock), also with subscribers that never read / never run again; (2) every received line parses, is jsonrpc 2.0, has method <topic>.update of the subscription's topic and a subscription_id that subscribe returned to that very subscriber; ids pairwise distinct; (3) per subscription each value at most once, one publisher's values in program order, two subscriptions of a topic agree on the relative order of common values; a received value's publish had been invoked; (4) no value whose publish was invoked after unsubscribe(X) returned is delivered on X, and a subscriber that empties its channel right after unsubscribe returned finds it still empty at the end of the execution (nothing is put into it after the unsubscribe completed); (5) hub.len() after a publish (invoked after a receiver was dropped) has returned no longer counts that subscription"));
     rep.assume("one executor thread; explicit yield points stand in for true parallelism of the multi-threaded runtime (all interleavings of the marked accesses, sequentially consistent); tokio's internal lock-free algorithms are trusted to be linearizable");
     rep.assume("preemption-bounded: bounds per harness are listed; all executions run to completion");
     rep
@@ -491,8 +532,9 @@ pub fn replay(v: &Value) -> Result<(), String> {
     let prefix: Vec<usize> = v["choices"].as_array().map(|a| a.iter().map(|x| x.as_u64().unwrap_or(0) as usize).collect()).unwrap_or_default();
     let b = build(cfg);
     let log = b.log.clone();
+    let parked = b._parked.clone();
     let x = run_futures(b.tasks, &prefix, 5000, &mut |_, _| {}).map_err(|e| format!("MACHINERY: {e}"))?;
-    let l = log.borrow().clone();
+    let l = final_log(&log, &parked);
     match judge(cfg, &l, &x, 0) {
         Ok(_) => Ok(()),
         Err((k, m)) => Err(format!("[{k}] {m}")),
